@@ -121,6 +121,18 @@ CLAIMED = {
         "Trusted: z3, DSE engine, the reference expansion in fv/props/c13.py; graph attributes initialised as FortranGraph.__init__ does.",
         "DESIGN.md §5 C13",
     ),
+    "C12": (
+        "symbolic execution of the real Project.__init__/correlate and graph classes with the iteration order of every `set` of the module under analysis "
+        "replaced by an arbitrary permutation chosen by the solver (environment stub), on symbolic multi-file projects; witnesses replayed with real ford runs under different PYTHONHASHSEEDs",
+        "Data-dependent half of C12 only: for every order in which the set of source paths is iterated (2 files; thorough 3 files, per file a symbolic choice "
+        "of 8 program units with overlapping names), every iteration order of the sets built by correlate() (two symbolic USE statements) and every "
+        "iteration order of the node sets in ford.graphs (fixed project, 12 graph classes) the ordered entity lists, names, identifiers, the order of "
+        "used-module listings and the emitted graph node/edge sequence equal those of a reference order.  Worker scheduling, stale output directories, "
+        "third-party set use and comprehension-built sets outside the rewritten modules are outside the claim.",
+        "Trusted: z3, CV evaluator, the permutation stub fv/permset.py (bound 4 elements per set), the assumption that rendering reads only the compared state; "
+        "list-order differences are reported only when real runs under different hash seeds produce different bytes.",
+        "DESIGN.md §11.7",
+    ),
     "C16": (
         "symbolic execution of parser + load_external_modules/dict2obj + Project.correlate on a symbolic project B against a really exported project A, decided by z3",
         "For every combination of: B defines / does not define a module and a type named like one of A (several letter cases), USE spellings: B's own "
@@ -139,7 +151,6 @@ CLAIMED = {
 }
 
 NOT_APPLICABLE = {
-    "C12": "determinism across hash seeds / file enumeration order / worker scheduling / stale output is runtime and OS behaviour with no representation in the function bodies an SMT encoding can reach (DESIGN.md §7)",
     "C17": "get_page_tree is a recursive walk over a real directory interleaved with python-markdown; with file system, pathlib and markdown stubbed nothing of the property's substance remains (DESIGN.md §7)",
     "C19": "property is about file-system effects of shutil/pathlib/graphviz calls and injected I/O failures; not a function of symbolic data (DESIGN.md §7)",
     "C20": "containment is exception flow across a whole multi-file run plus process-level termination on arbitrary bytes; loop termination of the line-level scanners is discharged as unwinding assertions inside C01/C02/C08 but does not decide C20 (DESIGN.md §7)",
